@@ -61,7 +61,13 @@ def run_init(rng, obs):
     which = rng.choice(['random', 'x0'])
     obs.desc = dict(cfg, which=which, lo=lo, hi=hi)
     if which == 'random':
-        s.SetRandomInitialPoints(list(lo), list(hi))
+        glo, ghi = list(lo), list(hi)
+        if rng.random() < 0.3:          # None entries stand for the solver's documented default limits
+            j = rng.randrange(dim)
+            if rng.random() < 0.5: glo[j] = None; lo[j] = float(s._defaultMin[0]); hi[j] = max(hi[j], lo[j])
+            else: ghi[j] = None; hi[j] = float(s._defaultMax[0])
+            obs.desc['none_entries'] = True
+        s.SetRandomInitialPoints(glo, ghi)
         pop = [[float(v) for v in m] for m in s.population]
         ok = all(l <= v <= h for m in pop for v, l, h in zip(m, lo, hi))
         obs.check(ok, 'init:SetRandomInitialPoints(lo,hi) generates every member within [lo,hi]', lo=lo, hi=hi, pop=pop[:4], solver=cfg['solver'])
@@ -69,15 +75,21 @@ def run_init(rng, obs):
     else:
         x0 = cfg['x0']
         r = rng.choice([0.05, 0.5, 0.0])
-        s.SetInitialPoints(list(x0), radius=r)
+        rv = [r] * dim
+        if rng.random() < 0.3:          # one radius per coordinate
+            rv = [rng.choice([0.05, 0.5, 0.0, 2.0]) for _ in range(dim)]
+            s.SetInitialPoints(list(x0), radius=list(rv))
+        else:
+            s.SetInitialPoints(list(x0), radius=r)
         pop = [[float(v) for v in m] for m in s.population]
         obs.check(pop[0] == [float(v) for v in x0], 'init:SetInitialPoints puts x0 first', x0=x0, first=pop[0])
-        def hull(v):
+        def hull(v, r):
             a, b = v * (1 - r), v * (1 + r)
-            if v == 0: a, b = -r, r
+            if a == 0: a = -r
+            if b == 0: b = r
             return min(a, b), max(a, b)
-        ok = all(hull(c)[0] <= v <= hull(c)[1] for m in pop[1:] for v, c in zip(m, x0))
-        obs.check(ok, 'init:SetInitialPoints keeps the other members within x0*(1+-radius)', x0=x0, radius=r, pop=pop[:4], solver=cfg['solver'])
-        obs.desc['radius'] = r
+        ok = all(hull(c, rr)[0] <= v <= hull(c, rr)[1] for m in pop[1:] for v, c, rr in zip(m, x0, rv))
+        obs.check(ok, 'init:SetInitialPoints keeps the other members within x0*(1+-radius)', x0=x0, radius=rv, pop=pop[:4], solver=cfg['solver'])
+        obs.desc['radius'] = rv
         obs.nontrivial = len(pop) > 1 and r > 0
     obs.notes = {'npop': len(pop)}
